@@ -202,3 +202,45 @@ Proof.
   - intros s0 v s0' Hv Hs0 E0. exact (Hrs s0 (C6.a_ip a6) v s0' Hv Hs0 E0).
 Qed.
 
+
+(* ---- the oracle the driver uses for arbitrary rule text meets the contract of the walker theorems,
+   for every callee whose registers (all of them) are within their slots *)
+From RM Require Import C08.Model C05.Driver.
+
+Lemma Some_pair_inj : forall {A B} (a c : A) (b d : B), Some (a, b) = Some (c, d) -> a = c /\ b = d.
+Proof. intros A B a c b d H. inversion H. split; reflexivity. Qed.
+
+Lemma cfi_text_contract : forall a mem mods regnames lrname callee gc fwd r v,
+  arch_ok a -> mem_wf mem -> frame_wf a callee ->
+  (forall n, in_slot a (slot_value a regnames lrname (f_regs callee) n)) ->
+  cfi_text a mem mods regnames lrname callee gc fwd = Some (r, v) ->
+  regs_wf a r /\ Forall (in_slot a) (r_gp r).
+Proof.
+  intros a mem mods regnames lrname callee gc fwd r v Ha Hm Hc Hall H. unfold cfi_text in H.
+  destruct (mod_of mods (f_instr callee)) as [[[b sz] [s|]]|]; try discriminate H.
+  destruct (s_text s) as [[init deltas]|]; [|discriminate H].
+  destruct (f_instr callee <? b); [discriminate H|].
+  match type of H with match ?W with _ => _ end = _ => destruct W as [[st|]| | |] eqn:EW; try discriminate H end.
+  apply Some_pair_inj in H. destruct H as [Hr _]. subst r.
+  assert (Hpw : (a_bits a = 32 /\ a_pw a = 4) \/ (a_bits a = 64 /\ a_pw a = 8)) by (destruct Ha as [H0 _]; exact H0).
+  assert (HB : 2 ^ (8 * a_pw a) <= 2 ^ a_slot_bits a).
+  { destruct Ha as [_ [H1 _]]. apply Z.pow_le_mono_r; [lia|]. destruct Hpw as [[Hb ->]|[Hb ->]]; lia. }
+  match type of EW with C6.walk_frame_cfi _ _ ?E0 _ _ ?s0 = _ => set (E := E0) in *; set (st0 := s0) in * end.
+  assert (HE : env_ok E).
+  { split.
+    - intros n x Ex. unfold E in Ex. cbn [C6.e_callee] in Ex.
+      destruct (C6.memoize (arch6 a regnames) n); [|discriminate Ex].
+      destruct (reg_valid a (name_of_bytes n) (f_valid callee)); [|discriminate Ex].
+      apply (f_equal (fun o => match o with Some y => y | None => 0 end)) in Ex. cbn beta iota in Ex. rewrite <- Ex.
+      unfold view. destruct (a_trunc a); [unfold wrap32, two32; apply Z.mod_pos_bound; lia | apply Hall].
+    - intros ad x Ex. unfold E in Ex. cbn [C6.e_mem] in Ex.
+      refine (proj1 (read_range mem (a_pw a) ad x Hm _ Ex)). destruct Hpw as [[_ ->]|[_ ->]]; lia. }
+  assert (H0 : ctx_below (2 ^ a_slot_bits a) st0).
+  { intros n. unfold st0. cbn [C6.r_ctx]. apply Hall. }
+  pose proof (real_walk_in_range (arch6 a regnames) (2 ^ a_slot_bits a) Debug E _ _ st0 st HB HE H0 EW) as Hin.
+  unfold ctx_below in Hin. unfold regs_wf, in_slot. cbn [r_ip r_sp r_fp r_lr r_gp].
+  split.
+  - split; [apply Hin|]. split; [apply Hin|]. split; [apply Hin|].
+    destruct lrname; [apply Hin|]. destruct Hc as [_ [_ [_ Hlr]]]. exact Hlr.
+  - apply Forall_forall. intros x Hx. apply in_map_iff in Hx. destruct Hx as [n [Hn _]]. rewrite <- Hn. apply Hin.
+Qed.
